@@ -168,9 +168,9 @@ func overrides(resource string) []string {
 	common := []string{"", `{}`, `{"pageSize":1}`, `{"pageSize":50}`, `{"endTime":"` + pit1 + `"}`}
 	switch resource {
 	case "transactions":
-		return append(common, `{"sort":"id:desc"}`, `{"sort":"timestamp:asc"}`, `{"expand":["effectiveVolumes"]}`, `{"pageSize":3,"sort":"id:asc","expand":["volumes","effectiveVolumes"]}`)
+		return append(common, `{"sort":"id:desc"}`, `{"sort":"timestamp:asc"}`, `{"expand":["effectiveVolumes"]}`, `{"expand":[]}`, `{"pageSize":3,"sort":"id:asc","expand":["volumes","effectiveVolumes"]}`)
 	case "accounts":
-		return append(common, `{"sort":"address:asc"}`, `{"sort":"first_usage:desc"}`, `{"expand":["effectiveVolumes"]}`, `{"pageSize":2,"sort":"address:desc","expand":["volumes"]}`)
+		return append(common, `{"sort":"address:asc"}`, `{"sort":"first_usage:desc"}`, `{"expand":["effectiveVolumes"]}`, `{"expand":[]}`, `{"pageSize":2,"sort":"address:desc","expand":["volumes"]}`)
 	case "logs":
 		return []string{"", `{}`, `{"pageSize":1}`, `{"pageSize":50}`, `{"sort":"id:asc"}`, `{"sort":"id:desc","pageSize":3}`}
 	case "volumes":
@@ -302,6 +302,48 @@ func (e *effParams) apply(layer, raw string) error {
 		}
 	}
 	return nil
+}
+
+// dropKey returns the params layer raw without the field k.
+func dropKey(raw, k string) string {
+	if raw == "" {
+		return raw
+	}
+	var m map[string]json.RawMessage
+	if err := json.Unmarshal([]byte(raw), &m); err != nil {
+		return raw
+	}
+	delete(m, k)
+	return js(m)
+}
+
+// layerKeys lists the fields a params layer mentions, sorted.
+func layerKeys(raw string) []string {
+	if raw == "" {
+		return nil
+	}
+	var m map[string]json.RawMessage
+	if err := json.Unmarshal([]byte(raw), &m); err != nil {
+		return nil
+	}
+	var ks []string
+	for k := range m {
+		ks = append(ks, k)
+	}
+	sort.Strings(ks)
+	return ks
+}
+
+// effOf folds defaults ⊕ template params ⊕ request params.
+func effOf(resource string, cfg common.PaginationConfig, tplParams, reqParams string) (effParams, error) {
+	e := defaultParams(resource, cfg)
+	if err := e.apply("template", tplParams); err != nil {
+		return e, err
+	}
+	if err := e.apply("request", reqParams); err != nil {
+		return e, err
+	}
+	return e, nil
 }
 
 func ltime(t *time.Time) *libtime.Time {
@@ -663,8 +705,13 @@ func runC37() int {
 			jobs = append(jobs, job{hi, cs})
 		}
 	}
-	var evaluations, followed, nontrivial, multiPage atomic.Int64
+	var evaluations, followed, nontrivial, multiPage, previousFollowed, overrideSame, keptUnderRequest atomic.Int64
 	ntKeys := sync.Map{}
+	// load-bearing parameters: "template|<field>" / "request|<field>" (and the same
+	// with the template id appended) -> true once some passing case was observed in
+	// which removing that field from that layer changes the direct query's pages, i.e.
+	// a RunQuery that ignored the field there would have been caught by that case
+	bearing := sync.Map{}
 	samples := ev.NewSamples(6)
 	perTpl := map[string]*[3]int64{} // runs, nonempty, multi-page
 	var mu sync.Mutex
@@ -811,6 +858,7 @@ func runC37() int {
 					g2, _, gerr := runTemplate(ctx, s.Ctrl, t.ID, map[string]any{"cursor": g.Previous}, cs.cfg)
 					w2, werr := directCursor(ctx, s.Ctrl, t.Resource, wnt.Previous)
 					followed.Add(1)
+					previousFollowed.Add(1)
 					if gerr != nil || werr != nil {
 						violation("cursor:previous:error", fmt.Sprintf("following previous: RunQuery error=%v direct error=%v", gerr, werr), nil)
 						continue
@@ -819,6 +867,45 @@ func runC37() int {
 						violation("cursor:previous:"+d, fmt.Sprintf("previous page differs (%s): RunQuery %s; direct %s", d, g2.brief(), w2.brief()), map[string]any{"runQuery": g2, "direct": w2})
 						continue
 					}
+				}
+				// measure what this (passing) case was able to detect: for every field of
+				// the template layer that the request does not mention, and every field of
+				// the request layer, would dropping it from that layer change the pages?
+				tplKeys, reqKeys := layerKeys(t.Params), layerKeys(cs.ov)
+				inReq := map[string]bool{}
+				for _, k := range reqKeys {
+					inReq[k] = true
+				}
+				probe := func(layer, k, tp, rp string) {
+					gk, tk := layer+"|"+k, layer+"|"+k+"|"+t.ID
+					if _, ok := bearing.Load(tk); ok {
+						return
+					}
+					e2, err := effOf(t.Resource, cs.cfg, tp, rp)
+					if err != nil {
+						return
+					}
+					w2, err := walkDirect(ctx, s.Ctrl, t.Resource, e2, qb(), cs.cfg)
+					if err != nil {
+						return
+					}
+					if i, _ := compareWalks(want, w2); i >= 0 {
+						bearing.Store(gk, true)
+						bearing.Store(tk, true)
+					}
+				}
+				for _, k := range tplKeys {
+					if inReq[k] {
+						overrideSame.Add(1)
+						continue
+					}
+					if len(reqKeys) > 0 {
+						keptUnderRequest.Add(1)
+					}
+					probe("template", k, dropKey(t.Params, k), cs.ov)
+				}
+				for _, k := range reqKeys {
+					probe("request", k, t.Params, dropKey(cs.ov, k))
 				}
 				// measure non-triviality: some but not all entities of the resource
 				allKey := fmt.Sprintf("%d|%s|%v|%v|%d|%v", j.hi, t.Resource, eff.PIT, eff.OOT, eff.GroupBy, eff.Insertion)
@@ -868,17 +955,58 @@ func runC37() int {
 			r.EngineError(fmt.Sprintf("vacuous: template %s never returned data (%d) or never needed a second page (%d)", id, st[1], st[2]))
 		}
 	}
+	var bearingKeys []string
+	bearing.Range(func(k, _ any) bool { bearingKeys = append(bearingKeys, k.(string)); return true })
+	sort.Strings(bearingKeys)
+	if exhaustive && r.ViolationCount() == 0 && !r.HasEngineError() {
+		has := func(k string) bool { _, ok := bearing.Load(k); return ok }
+		// every parameter kind the statement's «template parameters overridden by the
+		// request parameters» ranges over must have mattered at least once in each layer
+		for _, k := range []string{"pageSize", "sort", "endTime", "expand", "groupBy"} {
+			if !has("template|" + k) {
+				r.EngineError("vacuous: no passing case in which the template's " + k + " changes the result (a RunQuery ignoring it would go unnoticed)")
+			}
+		}
+		for _, k := range []string{"pageSize", "sort", "endTime", "startTime", "expand", "groupBy", "insertionDate"} {
+			if !has("request|" + k) {
+				r.EngineError("vacuous: no passing case in which the request's " + k + " changes the result (a RunQuery ignoring it would go unnoticed)")
+			}
+		}
+		// … and each template that declares params must have at least one of them matter
+		for _, t := range ts {
+			if t.Params == "" {
+				continue
+			}
+			any := false
+			for _, k := range layerKeys(t.Params) {
+				any = any || has("template|"+k+"|"+t.ID)
+			}
+			if !any {
+				r.EngineError("vacuous: none of the params of template " + t.ID + " ever changed a result")
+			}
+		}
+		if overrideSame.Load() == 0 || keptUnderRequest.Load() == 0 {
+			r.EngineError(fmt.Sprintf("vacuous: request overriding a field the template sets: %d cases; template field surviving a request that sets other fields: %d cases", overrideSame.Load(), keptUnderRequest.Load()))
+		}
+		if multiPage.Load() == 0 || previousFollowed.Load() == 0 {
+			r.EngineError(fmt.Sprintf("vacuous: multi-page runs %d, previous cursors followed %d", multiPage.Load(), previousFollowed.Load()))
+		}
+	}
 	return r.Finish(ev.Coverage{
-		"evaluations":         evaluations.Load(),
-		"distinct_nontrivial": nontrivial.Load(),
-		"cursor_steps":        followed.Load(),
-		"multi_page_runs":     multiPage.Load(),
-		"templates":           len(ts),
-		"cases_per_history":   len(cases),
-		"per_template":        per,
-		"rule":                "a schema with 11 query templates (transactions ×4, accounts ×3, logs ×2, volumes ×2; string variables with ${…} interpolation, int, boolean and date variables, declared defaults, $in lists, $exists, $and/$or/$not bodies; template params pageSize, sort, endTime, expand, groupBy, insertionDate) is inserted through the real InsertSchema path at the end of each of 3 histories; then RunQuery is called for EVERY combination of the variable menus (each variable: 2–3 values, or left unbound when it has a default) × EVERY entry of the request-params menu (none, {}, pageSize, sort column/order, endTime, startTime, expand, groupBy, insertionDate, a combination; thorough: also the union of every two entries on disjoint parameters) × two pagination configurations (default 15/max 100; default 4/max 10). Oracle: first page (entities with all expanded fields, page size, hasMore, presence of cursors) equals the direct List* call built by hand from the substituted filter and from defaults ⊕ template params ⊕ request params applied field by field; every page reached through the returned next cursors (and the previous cursor of the last page) equals the page reached through the direct call's cursors. distinct_nontrivial = distinct (template, binding, request params, config) whose result is non-empty and either a proper subset of the resource or multi-page, on some history",
-		"samples":             samples.List(),
-		"exhaustive":          exhaustive,
+		"load_bearing_params":               bearingKeys,
+		"request_overrides_template_field":  overrideSame.Load(),
+		"template_field_kept_under_request": keptUnderRequest.Load(),
+		"previous_cursors_followed":         previousFollowed.Load(),
+		"evaluations":                       evaluations.Load(),
+		"distinct_nontrivial":               nontrivial.Load(),
+		"cursor_steps":                      followed.Load(),
+		"multi_page_runs":                   multiPage.Load(),
+		"templates":                         len(ts),
+		"cases_per_history":                 len(cases),
+		"per_template":                      per,
+		"rule":                              "a schema with 11 query templates (transactions ×4, accounts ×3, logs ×2, volumes ×2; string variables with ${…} interpolation, int, boolean and date variables, declared defaults, $in lists, $exists, $and/$or/$not bodies; template params pageSize, sort, endTime, expand, groupBy, insertionDate) is inserted through the real InsertSchema path at the end of each of 3 histories; then RunQuery is called for EVERY combination of the variable menus (each variable: 2–3 values, or left unbound when it has a default) × EVERY entry of the request-params menu (none, {}, pageSize, sort column/order, endTime, startTime, expand (a list, or the empty list that clears the template's), groupBy, insertionDate, a combination; thorough: also the union of every two entries on disjoint parameters) × two pagination configurations (default 15/max 100; default 4/max 10). Oracle: first page (entities with all expanded fields, page size, hasMore, presence of cursors) equals the direct List* call built by hand from the substituted filter and from defaults ⊕ template params ⊕ request params applied field by field; every page reached through the returned next cursors (and the previous cursor of the last page) equals the page reached through the direct call's cursors. Vacuity guards (measured on passing cases): every template returns data and needs a second page at least once; for each of pageSize, sort, endTime, expand, groupBy set by a TEMPLATE and each of pageSize, sort, endTime, startTime, expand, groupBy, insertionDate set by a REQUEST there is a case in which removing that field from that layer changes the direct query's pages (load_bearing_params), so an implementation ignoring it cannot pass; requests override template-set fields and leave other template-set fields in force; previous cursors are followed. distinct_nontrivial = distinct (template, binding, request params, config) whose result is non-empty and either a proper subset of the resource or multi-page, on some history",
+		"samples":                           samples.List(),
+		"exhaustive":                        exhaustive,
 	}, []string{pgsimAssumption,
 		"«template parameters overridden by the request parameters» is read field-wise: a request that does not mention a parameter leaves the template's (or default) value in force"})
 }
